@@ -157,8 +157,27 @@ func runPlaceSuite(seed uint64, n int, out *Out, stats *Stats) {
 			}
 			return c
 		}
-		kind := i % 4
+		kind := i % 5
 		switch kind {
+		case 4:
+			// a sync round placed inside a production tick before the block is built: the tick has read
+			// the tip, the round then adopts a longer chain, the tick goes on
+			helper := NewNode(set, w.wallets[1].Addr)
+			helper.Pool.Validate(nd.Chain.FirstBlockTimestamp())
+			helperSync(helper, w.now, []*Peer{honestPeer("10.6.0.1:10600", nd)})
+			helper.Pool.Validate(w.now + set.Interval)
+			if i%2 == 0 {
+				helper.Pool.Validate(w.now + 2*set.Interval)
+			}
+			nd.Pool.AddTransaction(txs[0], "mine", "h")
+			hu.onCopy = func() {
+				p := honestPeer("10.6.0.2:10600", helper)
+				nd.Senders.Set([]application.Sender{&FakeSender{target: p.Target, getBlocks: p.Serve}})
+				nd.Chain.Update(w.now + 2*set.Interval)
+				nd.Senders.Set(nil)
+			}
+			nd.Pool.Validate(w.now + set.Interval)
+			stats.Count("place/sync-inside-tick-before-block")
 		case 3:
 			// two production ticks placed inside one sync round (a slow round): the round snapshots
 			// the chain, the node produces two blocks (with registry removals pending), the round commits
@@ -261,10 +280,10 @@ func runPlaceSuite(seed uint64, n int, out *Out, stats *Stats) {
 		mon.CheckChain(blocks, "after the placement")
 		mon.CheckDerived(nd, blocks, univ, "after the placement")
 		if out.Violations > before {
-			out.Violation("C16", id, fmt.Sprintf("quiescent-state:%s\tafter the placement the node violates C01-C07 (see the lines above for this case)", []string{"submit-inside-tick", "tick-inside-sync", "sync-inside-addblock", "two-ticks-inside-sync"}[kind]))
+			out.Violation("C16", id, fmt.Sprintf("quiescent-state:%s\tafter the placement the node violates C01-C07 (see the lines above for this case)", []string{"submit-inside-tick", "tick-inside-sync", "sync-inside-addblock", "two-ticks-inside-sync", "sync-inside-tick-before-block"}[kind]))
 		}
 		stats.Mark(fmt.Sprintf("%d/%d/%d", kind, len(blocks), len(nd.Pool.Transactions())))
-		stats.Sample(fmt.Sprintf("%s: placement %s; chain of %d blocks, pool of %d afterwards", id, []string{"submission inside a production tick (at AddBlock)", "production tick inside a sync round (at the registry copy of verify)", "sync round inside a production tick (when AddBlock consults the registry)", "two production ticks inside one sync round"}[kind], len(blocks), len(nd.Pool.Transactions())))
+		stats.Sample(fmt.Sprintf("%s: placement %s; chain of %d blocks, pool of %d afterwards", id, []string{"submission inside a production tick (at AddBlock)", "production tick inside a sync round (at the registry copy of verify)", "sync round inside a production tick (when AddBlock consults the registry)", "two production ticks inside one sync round", "sync round inside a production tick, after the tick read the tip"}[kind], len(blocks), len(nd.Pool.Transactions())))
 		stats.Cases++
 		stats.Ops += 2
 	}
